@@ -102,6 +102,13 @@ func (e *Engine) generate(prop string, only string) *runResult {
 		}
 	}
 	closure := prop != "" && only == "" && os.Getenv("GOVC_NODEPS") == ""
+	relied := map[string]bool{}
+	type pending struct {
+		key string
+		c   *Contract
+		fc  *FnCtx
+	}
+	var pend []pending
 	for qi := 0; qi < len(names); qi++ {
 		key := names[qi]
 		c := e.specs.Contracts[key]
@@ -125,7 +132,13 @@ func (e *Engine) generate(prop string, only string) *runResult {
 			sort.Slice(used, func(i, j int) bool { return used[i].Name < used[j].Name })
 			add := func(k string) {
 				dc := e.specs.Contracts[k]
-				if dc == nil || dc.Kind != "func" || dc.Trusted || inSet[k] {
+				if dc == nil || dc.Kind != "func" || dc.Trusted {
+					return
+				}
+				if inSet[k] {
+					// already in the run because it carries the property's tag: another function of the run relies on its
+					// whole contract, so all of its clauses are discharged here, not only the tagged ones
+					relied[k] = true
 					return
 				}
 				if dc.ThoroughOnly && e.tier != "thorough" {
@@ -149,6 +162,11 @@ func (e *Engine) generate(prop string, only string) *runResult {
 				}
 			}
 		}
+		pend = append(pend, pending{key, c, fc})
+	}
+	for _, pd := range pend {
+		key, c, fc := pd.key, pd.c, pd.fc
+		whole := dep[key] || relied[key]
 		for _, o := range fc.obls {
 			if hasProp(o.Props, "thorough") && e.tier != "thorough" {
 				continue
@@ -159,7 +177,7 @@ func (e *Engine) generate(prop string, only string) *runResult {
 				e.assumptionsUsed["ASSUMED clause (stated, used by callers, not discharged): "+o.base()+" :: "+o.Contract] = true
 				continue
 			}
-			if prop != "" && only == "" && !dep[key] {
+			if prop != "" && only == "" && !whole {
 				// obligations of the property: tagged clauses, plus untagged safety/frame/pre/cover of tagged functions
 				if len(o.Props) > 0 && !hasProp(o.Props, prop) {
 					continue
@@ -168,8 +186,8 @@ func (e *Engine) generate(prop string, only string) *runResult {
 					continue
 				}
 			}
-			if dep[key] {
-				o.Dep = true
+			if whole {
+				o.Dep = dep[key]
 				// a clause that is a recorded finding of another property is reported by that property's check; here it
 				// stays an assumption of the callers' proofs (listed as such)
 				skip := false
